@@ -120,3 +120,14 @@ Theorem C17_failed_call_without_in_place_changes_nothing : forall e h e', hstep 
   end.
 Proof. exact failed_not_in_place. Qed.
 Print Assumptions C17_failed_call_without_in_place_changes_nothing.
+
+(* non-vacuity: a concrete stratified Experiment on which an in-place call is aborted after two randomizations, a call is rejected,
+   a call without in_place is aborted after one, and a randomization completes; the history runs and all answers are consumed *)
+Example C17_failure_history_nonvacuous :
+  match hrun {| group := [:: 0; 1; 0; 1]%Z; response := [:: [:: 1%Q]; [:: 2%Q]; [:: 3%Q]; [:: 4%Q]]; strata := Some [:: 5; 5; 6; 6]%Z;
+                kind := Strat; gen := [:: 1; 0; 0; 0; 1; 0; 1; 0; 0; 0; 1; 0]%nat |}
+             [:: Aborted true None [::] 2; Rejected; Aborted false None [:: 1; 0; 1; 0]%nat 1; Done (Randomize true None [::])] with
+  | Ok e => (group e == [:: 0; 1; 0; 1]%Z) && (size (gen e) == 0%nat)
+  | Err _ => false
+  end = true.
+Proof. vm_compute. reflexivity. Qed.
